@@ -24,6 +24,9 @@ inductive Err where
   | oob
   /-- the model's loop budget ran out (never happens with `fuelFor`: theorem `fuel_suffices`) -/
   | fuel
+  /-- the Fibonacci-heap model (`Model/FibHeap.lean`, property C16) reached one of its own error states
+      (only in `Model/DijkstraFib.lean`; never happens: C16 `no_oob`, `no_corrupt`) -/
+  | heap
   deriving Repr, BEq, DecidableEq
 
 /-- the queue discipline compiled in -/
